@@ -320,6 +320,30 @@ Definition uc_int_bounds (ncross nparent : nat) (nmating : list Z) (nxmap : nat)
   if Nat.eqb (length lower) (length upper) then Some (lower, upper) else None.
 Definition is_none {A} (o : option A) : bool := match o with None => true | Some _ => false end.
 
+(** * 12. object lifecycle of a configuration: the fields a sampling reads, the operations that change them.
+      The setters store their argument (no derived value is kept), an in-place write into the decision vector changes the
+      same field, copy / deepcopy carry the fields over; sample_xconfig reads ncross, nparent, xconfig_decn (and the cross map)
+      at the call and writes xconfig only. *)
+Record cfg_state := { st_nc : nat; st_np : nat; st_decn : list Z; st_xmap : list (list Z) }.
+Inductive cfg_op :=
+| OpSetDecn (d : list Z) | OpMutateDecn (d : list Z) | OpSetShape (nc np : nat) | OpSetXmap (x : list (list Z))
+| OpCopy | OpDeepCopy | OpSetRng | OpSample.
+Definition apply_op (s : cfg_state) (o : cfg_op) : cfg_state :=
+  match o with
+  | OpSetDecn d | OpMutateDecn d => {| st_nc := st_nc s; st_np := st_np s; st_decn := d; st_xmap := st_xmap s |}
+  | OpSetShape nc np => {| st_nc := nc; st_np := np; st_decn := st_decn s; st_xmap := st_xmap s |}
+  | OpSetXmap x => {| st_nc := st_nc s; st_np := st_np s; st_decn := st_decn s; st_xmap := x |}
+  | OpCopy | OpDeepCopy | OpSetRng | OpSample => s
+  end.
+Definition session (s0 : cfg_state) (ops : list cfg_op) : cfg_state := fold_left apply_op ops s0.
+(** the samplings of the integer-vector classes as functions of the state at the call *)
+Definition sample_subset (s : cfg_state) := cfg_subset (st_nc s) (st_np s) (st_decn s).
+Definition sample_binary (s : cfg_state) := cfg_binary (st_nc s) (st_np s) (st_decn s).
+Definition sample_integer (s : cfg_state) := cfg_integer (st_nc s) (st_np s) (st_decn s).
+Definition sample_mate (s : cfg_state) := cfg_mate (st_nc s) (st_np s) (st_decn s) (st_xmap s).
+Definition sample_integer_mate (s : cfg_state) := cfg_integer_mate (st_nc s) (st_np s) (st_decn s) (st_xmap s).
+Definition sample_binary_mate (s : cfg_state) := cfg_binary_mate (st_nc s) (st_np s) (st_decn s) (st_xmap s).
+
 (** * comparison helpers for the correspondence shards *)
 Definition natll_eqb := list_eqb natl_eqb.
 Definition onatll_eqb := opt_eqb natll_eqb.
